@@ -84,6 +84,9 @@ def check_returned_rules(db, rules):
     inserted = {_t(k) for k in m_table.shadow_of_keys(db.table_method)}
     known_history = m_table.history_known(db.table_method)
     empties = set()
+    # rules inserted as they are, derived forms included (expanding a verified class inserts the
+    # rules of a specification - reverse and equivalence forms among them - into a fresh database)
+    as_inserted = {_t(ev["rule"].forest_key(lab, db.classdb.is_empty)) for ev in sh.events}
     for r in rules:
         key = r.forest_key(lab, db.classdb.is_empty)
         t = _t(key)
@@ -92,11 +95,11 @@ def check_returned_rules(db, rules):
         for c in r.children:
             if db.classdb.is_empty(c, lab(c)):
                 empties.add(lab(c))  # empty classes get their (nullary) rule lazily, in the specification
-        if isinstance(r, ReverseRule) and not r.is_equivalence():
+        if isinstance(r, ReverseRule) and not r.is_equivalence() and t not in as_inserted:
             reverse_used += 1
         src = r.original_rule if isinstance(r, EquivalenceRule) else r  # the form whose key was inserted
         ti = _t(src.forest_key(lab, db.classdb.is_empty))
-        if known_history and ti not in inserted:
+        if known_history and ti not in inserted and t not in inserted:
             cx.violation("C11:returned-rule-never-inserted", f"{type(r).__name__} with key {ti} was never inserted", wit)
     if root not in parents and db.classdb.is_empty(db.classdb.get_class(root), root):
         empties.add(root)  # an empty start class: no rule is handed back, the specification adds it
